@@ -17,6 +17,7 @@ import (
 	"sort"
 	"strconv"
 	"strings"
+	"syscall"
 	"time"
 
 	"github.com/lindb/lindb/pkg/queue"
@@ -1421,7 +1422,8 @@ func (s *sim) caseLazyFixed(rng *rand.Rand) {
 // memory-backed file system when there is one.
 func scratch(big bool) (string, error) {
 	if big {
-		if st, err := os.Stat("/dev/shm"); err == nil && st.IsDir() {
+		var fs syscall.Statfs_t
+		if st, err := os.Stat("/dev/shm"); err == nil && st.IsDir() && syscall.Statfs("/dev/shm", &fs) == nil && uint64(fs.Bavail)*uint64(fs.Bsize) >= 2<<30 {
 			if d, err := os.MkdirTemp("/dev/shm", "lvh-c06-*"); err == nil {
 				return d, nil
 			}
